@@ -35,8 +35,17 @@ func genLoopCase(t *rapid.T, prop string) *Case {
 		v := int64(rapid.IntRange(0, 9).Draw(t, "item_v"))
 		d := rapid.SampledFrom(durs).Draw(t, "item_dur")
 		tag := fmt.Sprintf("i%d", i)
-		items = append(items, map[string]any{"v": v, "mode": mode, "dur": d, "tag": tag})
-		itemExprs = append(itemExprs, ir.Obj(ir.F("v", ir.Lit(v)), ir.F("mode", ir.Lit(mode)), ir.F("dur", ir.Lit(d)), ir.F("tag", ir.Lit(tag))))
+		item := map[string]any{"v": v, "mode": mode, "dur": d, "tag": tag}
+		fields := []ir.Field{ir.F("v", ir.Lit(v)), ir.F("mode", ir.Lit(mode)), ir.F("dur", ir.Lit(d)), ir.F("tag", ir.Lit(tag))}
+		if fromInput && rapid.IntRange(0, 3).Draw(t, "item_pattern") == 0 {
+			// a pattern-typed field: its unserialised form (a compiled expression) is not its serialised form.
+			// Only for items that come from the workflow input: a pattern *literal* in the workflow text is
+			// refused at preparation by pluginsdk's PatternSchema.ValidateCompatibility ("string is not a valid
+			// data type for a float schema") - a defect of the dependency, outside this repository.
+			item["pat"] = "^a.*$"
+		}
+		items = append(items, item)
+		itemExprs = append(itemExprs, ir.Obj(fields...))
 	}
 	if rapid.IntRange(0, 4).Draw(t, "nested_loop") == 0 {
 		return genNestedLoopCase(t, prop, doc)
